@@ -88,4 +88,12 @@ PROPS = {
                                         "the Add* convenience builders of ProtocolConfigurationOptions.go (net.IP handling) are not modelled"],
         rule="all 65 536 PSI bitmaps in both directions (exhaustive); generated unit lists (ids incl. 16-bit extremes, contents 0..255 octets, consistent and inconsistent lengths); parse inputs: exhaustive 1-2 octets, sampled 3-5, valid encodings truncated at random points, random bytes; non-trivial = distinct op",
     ),
+    "C17": dict(
+        level="proof", modules=["NasVerif.Props.C17"], parts=[],
+        streams=[("conv17", 1500, 20000)], oracle="C17",
+        trusted_base=TB_COMMON[:1] + ["hand-written Model/Conv17.lean mirrors GPRSTimer2/3.go, SessionAMBR.go, Time.go, NetWorkName.go (strings = List Char with checked indexing; strconv.ParseUint, strings.Split modelled); tied by the correspondence run",
+                                        "Go's time package (time.Date normalisation, FixedZone) is trusted: the theorem is about the BCD/semi-octet transport of the six fields and the zone octet",
+                                        "spec decoders (TS 24.008 Tables 10.5.163/163a, TS 23.040 time zone, TS 23.038 7-bit packing) are transcriptions"],
+        rule="all timer-2 durations 0..11200 s, timer-3 durations 0..1116100 s in steps of 7 (thorough: all) plus every k*unit +-1; AMBR boundary values x units + 3000 random (thorough: all 65536); all 480 zone x DST texts; all 256 zone/DST octets; universal time at year/month/leap boundaries + random instants x zones; names of every length 0..70 x 3 fillings x 2 kinds; non-trivial = distinct op",
+    ),
 }
